@@ -65,7 +65,7 @@ PROPS.update({
     },
     "C13": {
         "level": "proof",
-        "text": "Kernel-checked for every run: dead letters = failing returns, as lists (each dead letter immediately followed by the failing return of the same operation with the matching reason; successes record none), hence the counter equals the number of failures. Real dead letters are captured from the tracing events by an in-process subscriber and compared event by event with the model; monitor C13.ok on every real trace. Every script is run twice, directly and through the type-erased wrappers (Box<dyn TellHandler/AskHandler/ActorControl>), both against the model, and the forwarder table (28 methods, each forwarding verbatim to the inherent method) is a tie of this property too. Stress scenario `replyclose`: a handler that replies and ends its own actor in the same poll - the asker gets the reply and no dead letter is recorded. Stress scenario `mix` (multi-thread runtime, seeded): tells, asks, timeout variants, erased handles, sends cancelled by their caller, blocking calls from a plain thread, handlers that send to their own actor, handle churn and an ending, all at once on one actor; after every iteration the number of dead letters recorded equals the number of operations that failed.",
+        "text": "Kernel-checked for every run: dead letters = failing returns, as lists (each dead letter immediately followed by the failing return of the same operation with the matching reason; successes record none), hence the counter equals the number of failures. Real dead letters are captured from the tracing events by an in-process subscriber and compared event by event with the model; monitor C13.ok on every real trace. Every script is run twice, directly and through the type-erased wrappers (Box<dyn TellHandler/AskHandler/ActorControl>), both against the model, and the forwarder table (28 methods, each forwarding verbatim to the inherent method) is a tie of this property too. Stress scenario `replyclose`: a handler that replies and ends its own actor in the same poll - the asker gets the reply and no dead letter is recorded. Stress scenario `mix` (multi-thread runtime, seeded): tells, asks, timeout variants, erased handles, sends cancelled by their caller, blocking calls from a plain thread, handlers that send to their own actor, handle churn and an ending, all at once on one actor; after every iteration the number of dead letters recorded equals the number of operations that failed. Stress scenario `dlrace`: two deliveries that fail at the same moment on two threads, under a subscriber that takes 8-40 ms per event, record two dead letters.",
         "note": PROOF_NOTE,
         "technique": "Lean 4 fold-invariant proof over label sequences + correspondence on captured tracing dead-letter events",
         "monitors": ["C13"],
